@@ -399,9 +399,11 @@ func (g *gen) randTFOp(alpha []string, curLen int) tfOp {
 	}
 }
 
-func (g *gen) tfStream() *hx.Stream {
+func (g *gen) tfStream() (*hx.Stream, *hx.Stream) {
 	s := hx.NewStream("textfield", "model.Editors", "tf_case", "c17_tf_mismatches", "c17_tf_violations")
 	s.ShardMax = 400
+	sl := hx.NewStream("textfield_long", "model.Editors", "tf_case", "c17_tf_mismatches", "c17_tf_violations")
+	sl.ShardMax = 50
 	r := g.cfg.Rand
 	// hand-written: the histories of the two known defects and friends
 	g.runTF(s, []tfOp{{kind: "text", s: "a"}, {kind: "text", s: "b"}, {kind: "backspace"}, {kind: "end"}}, 200, true, "tf-regress")
@@ -416,30 +418,44 @@ func (g *gen) tfStream() *hx.Stream {
 		{},
 		{{kind: "insertapi", s: "\U0001F1E6\U0001F1FAe\u0301 z"}},
 	}
-	depths := []int{3, 2, 2}
-	if g.cfg.Thorough() {
-		depths = []int{4, 4, 4}
+	// quick: depth 2 over the whole alphabet from every start and depth 3 over a core of 8
+	// operations from the first; thorough: depth 4 / 3 over the whole alphabet
+	core := []tfOp{ex[0], ex[1], ex[3], ex[4], ex[6], ex[7], ex[8], ex[9]}
+	type plan struct {
+		start int
+		alpha []tfOp
+		depth int
 	}
-	for si, st := range starts {
+	plans := []plan{{0, ex, 2}, {1, ex, 2}, {2, ex, 2}, {0, core, 3}}
+	if g.cfg.Thorough() {
+		plans = []plan{{0, ex, 4}, {1, ex, 3}, {2, ex, 3}}
+	}
+	seen := map[string]bool{}
+	for _, pl := range plans {
+		st := starts[pl.start]
 		var rec func(prefix []tfOp, d int)
 		rec = func(prefix []tfOp, d int) {
 			if len(prefix) > 0 {
 				ops := append(append([]tfOp{}, st...), prefix...)
-				g.runTF(s, ops, 200, true, "tf-exhaustive")
+				key := fmt.Sprint(pl.start, ops)
+				if !seen[key] {
+					seen[key] = true
+					g.runTF(s, ops, 200, true, "tf-exhaustive")
+				}
 			}
 			if d == 0 {
 				return
 			}
-			for _, o := range ex {
+			for _, o := range pl.alpha {
 				rec(append(append([]tfOp{}, prefix...), o), d-1)
 			}
 		}
-		rec(nil, depths[si])
+		rec(nil, pl.depth)
 	}
 	// random histories over the boundary-stable alphabet
-	nRand, maxLen := 500, 40
+	nRand, maxLen := 400, 30
 	if g.cfg.Thorough() {
-		nRand, maxLen = 12000, 200
+		nRand, maxLen = 3000, 200
 	}
 	for i := 0; i < nRand; i++ {
 		L := 3 + r.Intn(maxLen-2)
@@ -455,15 +471,15 @@ func (g *gen) tfStream() *hx.Stream {
 			}
 			ops = append(ops, o)
 		}
-		g.runTF(s, ops, tfWidths[r.Intn(len(tfWidths))], true, "tf-random")
+		g.runTF(sl, ops, tfWidths[r.Intn(len(tfWidths))], true, "tf-random")
 	}
 	// histories over an alphabet that is NOT boundary-stable (lone combining marks, ZWJ,
 	// regional indicators, CR/LF): model against code only
 	both := append(append([]string{}, stableAlpha...), unstableExtra...)
 	both = append(both, unstableExtra...)
-	nUn := 150
+	nUn := 120
 	if g.cfg.Thorough() {
-		nUn = 4000
+		nUn = 1500
 	}
 	for i := 0; i < nUn; i++ {
 		L := 3 + r.Intn(25)
@@ -475,9 +491,9 @@ func (g *gen) tfStream() *hx.Stream {
 			}
 			ops = append(ops, o)
 		}
-		g.runTF(s, ops, tfWidths[r.Intn(len(tfWidths))], false, "tf-unstable")
+		g.runTF(sl, ops, tfWidths[r.Intn(len(tfWidths))], false, "tf-unstable")
 	}
-	return s
+	return s, sl
 }
 
 // ============================================================ textinput
@@ -783,9 +799,11 @@ func (g *gen) randTIOp(alpha []string, unstable bool) []tiOp {
 	}
 }
 
-func (g *gen) tiStream() *hx.Stream {
+func (g *gen) tiStream() (*hx.Stream, *hx.Stream) {
 	s := hx.NewStream("textinput", "model.Editors", "ti_case", "c17_ti_mismatches", "c17_ti_violations")
 	s.ShardMax = 400
+	sl := hx.NewStream("textinput_long", "model.Editors", "ti_case", "c17_ti_mismatches", "c17_ti_violations")
+	sl.ShardMax = 50
 	r := g.cfg.Rand
 	// hand-written: Draw in windows at most 4 columns wider than the prompt (the hang), and
 	// scrolling back and forth
@@ -806,31 +824,43 @@ func (g *gen) tiStream() *hx.Stream {
 		{},
 		{{kind: "setcontent", s: "\U0001F469\u200d\U0001F467 x"}},
 	}
-	depths := []int{3, 2, 2}
-	if g.cfg.Thorough() {
-		depths = []int{4, 4, 3}
+	core := []tiOp{ex[0], ex[2], ex[3], ex[5], ex[7], ex[8], ex[9], ex[10], ex[13]}
+	type plan struct {
+		start int
+		alpha []tiOp
+		depth int
 	}
-	for si, st := range starts {
+	plans := []plan{{0, ex, 2}, {1, ex, 2}, {2, ex, 2}, {0, core, 3}}
+	if g.cfg.Thorough() {
+		plans = []plan{{0, ex, 4}, {1, ex, 3}, {2, ex, 3}}
+	}
+	seen := map[string]bool{}
+	for _, pl := range plans {
+		st := starts[pl.start]
 		var rec func(prefix []tiOp, d int)
 		rec = func(prefix []tiOp, d int) {
 			if len(prefix) > 0 {
 				ops := append(append([]tiOp{}, st...), prefix...)
 				ops = append(ops, tiOp{kind: "draw", w: 40})
-				g.runTI(s, "", ops, true, "ti-exhaustive")
+				key := fmt.Sprint(pl.start, ops)
+				if !seen[key] {
+					seen[key] = true
+					g.runTI(s, "", ops, true, "ti-exhaustive")
+				}
 			}
 			if d == 0 {
 				return
 			}
-			for _, o := range ex {
+			for _, o := range pl.alpha {
 				rec(append(append([]tiOp{}, prefix...), o), d-1)
 			}
 		}
-		rec(nil, depths[si])
+		rec(nil, pl.depth)
 	}
 	// random histories
-	nRand, maxLen := 500, 40
+	nRand, maxLen := 400, 30
 	if g.cfg.Thorough() {
-		nRand, maxLen = 12000, 200
+		nRand, maxLen = 3000, 200
 	}
 	mk := func(alpha []string, L int, unstable bool) []tiOp {
 		var ops []tiOp
@@ -844,12 +874,12 @@ func (g *gen) tiStream() *hx.Stream {
 		if r.Intn(4) == 0 {
 			L = 3 + r.Intn(10)
 		}
-		g.runTI(s, tiPrompts[r.Intn(len(tiPrompts))], mk(stableAlpha, L, false), true, "ti-random")
+		g.runTI(sl, tiPrompts[r.Intn(len(tiPrompts))], mk(stableAlpha, L, false), true, "ti-random")
 	}
 	// Draw-heavy histories: long contents, every motion followed by a Draw at a random width
-	nDraw := 200
+	nDraw := 150
 	if g.cfg.Thorough() {
-		nDraw = 5000
+		nDraw = 2000
 	}
 	for i := 0; i < nDraw; i++ {
 		ops := []tiOp{{kind: "setcontent", s: g.randText(stableAlpha, 30)}}
@@ -861,20 +891,20 @@ func (g *gen) tiStream() *hx.Stream {
 			}
 			ops = append(ops, tiOp{kind: "draw", w: w})
 		}
-		g.runTI(s, tiPrompts[r.Intn(len(tiPrompts))], ops, true, "ti-draw")
+		g.runTI(sl, tiPrompts[r.Intn(len(tiPrompts))], ops, true, "ti-draw")
 	}
 	// not boundary-stable (and tabs, which vaxis.Characters expands): model against code
 	both := append(append([]string{}, stableAlpha...), unstableExtra...)
 	both = append(both, unstableExtra...)
 	both = append(both, "\t")
-	nUn := 150
+	nUn := 120
 	if g.cfg.Thorough() {
-		nUn = 4000
+		nUn = 1500
 	}
 	for i := 0; i < nUn; i++ {
-		g.runTI(s, tiPrompts[r.Intn(len(tiPrompts))], mk(both, 3+r.Intn(25), true), false, "ti-unstable")
+		g.runTI(sl, tiPrompts[r.Intn(len(tiPrompts))], mk(both, 3+r.Intn(25), true), false, "ti-unstable")
 	}
-	return s
+	return s, sl
 }
 
 func main() {
@@ -887,17 +917,19 @@ func main() {
 		panic(err)
 	}
 	g := &gen{cfg: cfg, vx: vx}
-	tf := g.tfStream()
-	ti := g.tiStream()
-	tf.Imports = dictImports()
-	ti.Imports = dictImports()
+	tf, tfl := g.tfStream()
+	ti, til := g.tiStream()
+	streams := []*hx.Stream{tf, tfl, ti, til}
+	for _, st := range streams {
+		st.Imports = dictImports()
+	}
 	extra := map[string]interface{}{"draw_hangs": g.hangs, "narrow_draws_skipped_after_two_hangs": g.skippedDraws,
 		"stable_alphabet": stableAlpha, "unstable_extra": unstableExtra}
 	cfg.Write("C17", "operation histories on a fresh TextField / textinput.Model, driven with real vaxis.Key, paste and other events and the exported methods; "+
 		"hand-written regressions, bounded-exhaustive sequences over a 12/14-operation alphabet from three starting contents, random histories over a boundary-stable cluster alphabet "+
 		"(narrow, wide, combining, ZWJ, flags, modifiers, jamo), Draw at widths 0..150 with several prompts, and histories over a NOT boundary-stable alphabet (model-vs-code only); "+
 		"non-trivial = a deletion/word operation/paste that changed the text or cursor, an insertion before the end (TextField), or a Draw that scrolled",
-		[]*hx.Stream{tf, ti}, extra, g.direct)
+		streams, extra, g.direct)
 	if g.hangs == 0 {
 		hx.WithTimeout(2*time.Second, vx.Close)
 	}
